@@ -76,13 +76,14 @@ func init() {
 
 // seeds below lfDirected are the systematic enumeration
 // (running or not) x (3 ways of loading) x (every failure kind)
-const lfDirected = 6 * 28
+const lfDirected = 6 * 31
 
 var lfFailKinds = []string{
 	"syntax", "unknown-directive",
 	"args:gzip", "args:timeouts", "args:header", "args:basicauth", "args:limits", "args:log", "args:rewrite", "args:redir",
 	"args:proxy", "args:fastcgi", "args:status", "args:mime", "args:index", "args:errors", "args:tls", "args:on", "args:bind",
 	"missing:import", "missing:htpasswd", "missing:tlscert", "missing:markdown-template", "bad:htpasswd",
+	"bad:htpasswd-user", "bad:tlscert-garbage", "bad:import-syntax",
 	"port-in-use", "startup-callback:log", "startup-callback:simcb", "restart-callback",
 }
 
@@ -187,6 +188,17 @@ func (r *lfRig) failLines(cfg *lfCfg, fail, root string) string {
 	case "bad:htpasswd":
 		os.WriteFile(filepath.Join(root, "bad.ht"), []byte("this line has no colon\n"), 0644)
 		return "\tbasicauth /m bob htpasswd=bad.ht\n"
+	case "bad:htpasswd-user":
+		// a well-formed htpasswd file that does not contain the named user
+		os.WriteFile(filepath.Join(root, "others.ht"), []byte("alice:"+sha("secret")+"\n"), 0644)
+		return "\tbasicauth /m nobody htpasswd=others.ht\n"
+	case "bad:tlscert-garbage":
+		os.WriteFile(filepath.Join(root, "garbage.crt"), []byte("-----BEGIN CERTIFICATE-----\nnot base64 at all\n-----END CERTIFICATE-----\n"), 0644)
+		os.WriteFile(filepath.Join(root, "garbage.key"), []byte("garbage"), 0644)
+		return "\ttls " + filepath.Join(root, "garbage.crt") + " " + filepath.Join(root, "garbage.key") + "\n"
+	case "bad:import-syntax":
+		os.WriteFile(filepath.Join(root, "broken.conf"), []byte("nosuchdirective_in_import x\n"), 0644)
+		return "\timport " + filepath.Join(root, "broken.conf") + "\n"
 	case "missing:tlscert":
 		return "\ttls " + none + ".crt " + none + ".key\n"
 	case "missing:markdown-template":
